@@ -851,6 +851,27 @@ theorem missing_dirs_every_prefix_valid {le : α → α → Prop} (hO : DomOrd D
   simp only [liveT, h1, h2, if_true]
   exact htgt c p h
 
+omit hD hm in
+theorem liveParentFirst (parent : Nat → Option Nat) (hpf : ParentFirst parent levels) :
+    ParentFirst (liveParent parent ex) (liveLevels ex levels) := by
+  unfold ParentFirst at *
+  rw [live_flatten]
+  exact (hpf.filter _).imp (fun h hp => h (liveParent_some hp).1)
+
+/-- **missing_dirs_every_prefix_valid_parent_first**: the same under `ParentFirst` (a parent may be listed first in the
+    level of its children). -/
+theorem missing_dirs_every_prefix_valid_parent_first {le : α → α → Prop} (hO : DomOrd D le) (parent : Nat → Option Nat)
+    (hc : CacheOK s) (hb : BatchOK levels s.files T) (hpf : ParentFirst parent levels)
+    (hold : Valid (liveParent parent ex) le s.files) (htgt : Valid (liveParent parent ex) le T) :
+    ∀ k, Valid (liveParent parent ex) le (applyWrites s.files ((runBatchE D exp ex levels s).2.take k)) := by
+  rw [runBatchE_eq]
+  apply every_prefix_valid_parent_first hD hm exp _ s _ hO _ hc (liveBatchOK ex levels s.files T hb)
+    (liveParentFirst ex levels parent hpf) hold
+  intro c p h
+  obtain ⟨_, h1, h2⟩ := liveParent_some h
+  simp only [liveT, h1, h2, if_true]
+  exact htgt c p h
+
 end MissingDirs
 
 /-! ### histories with a changing set of directories: batches, and the runtime creating / removing cgroups -/
@@ -1281,7 +1302,7 @@ def exLevels : List (List (Upd Nat)) :=
 def exS : St Nat := { files := exOld, cache := fun _ => none, skip := [] }
 
 example : (runBatch cpusetDom false exLevels exS).2 =
-    [(0, 15), (3, 15), (1, 15), (2, 15), (2, 12), (3, 12), (1, 12), (0, 12)] := by decide
+    [(0, 15), (3, 15), (1, 15), (2, 15), (2, 12), (1, 12), (3, 12), (0, 12)] := by decide
 theorem ex_cacheOK : CacheOK exS := by intro n v h; simp [exS] at h
 theorem ex_batchOK : BatchOK exLevels exS.files exT where
   tgt := by decide
@@ -1386,10 +1407,20 @@ theorem zero_target_nonmergeable_counterexample :
   have := h 1 1 0 rfl
   unfold limLe at this; revert this; decide
 
-/-- **same_level_parent_child_counterexample** (the `Levelled` hypothesis is necessary, and cgreconcile does not meet
-    it): calculateResources puts the kubepods root (Guaranteed, node 0) in the SAME level as its children burstable
-    (1) and besteffort (2); the bottom-up sweep visits a level in forward order, so on a shrink (memory.min
-    1.25 GiB → 0 with one burstable pod) kubepods is lowered BEFORE burstable — all updaters mergeable. -/
+/-- **leveled_batch_valid_parent_first**: leveled_batch_valid_needs_mergeable under the weaker arrangement: all updater
+    objects mergeable and no directory listed before its parent (a parent may sit first in its children's level). -/
+theorem leveled_batch_valid_parent_first {D : Dom α} (hD : DomEq D) {le : α → α → Prop} (hO : DomOrd D le)
+    (exp : Bool) (ex : Nat → Bool) (levels : List (List (UpdK α))) (s : St α) (T : Nat → α)
+    (parent : Nat → Option Nat) (hk : AllMergeable levels)
+    (hc : CacheOK s) (hb : BatchOK (eraseKinds levels) s.files T) (hpf : ParentFirst parent (eraseKinds levels))
+    (hold : Valid (liveParent parent ex) le s.files) (htgt : Valid (liveParent parent ex) le T) :
+    ∀ k, Valid (liveParent parent ex) le (applyWrites s.files ((runBatchK D exp ex levels s).2.take k)) := by
+  rw [runBatchK_all_mergeable D exp ex levels s hk]
+  exact missing_dirs_every_prefix_valid_parent_first (domEq_withKind hD true) rfl exp ex _ s T (domOrd_withKind hO true)
+    parent hc hb hpf hold htgt
+
+/-- cgreconcile's qos level: calculateResources puts the kubepods root (Guaranteed, node 0) in the SAME level as its
+    children burstable (1) and besteffort (2), kubepods first; memory.min 1.25 GiB → 0 with one burstable pod. -/
 def slParent : Nat → Option Nat
   | 1 => some 0 | 2 => some 0 | _ => none
 def slS : St Int := { files := fun n => if n ≤ 1 then 1342177280 else 0, cache := fun _ => none, skip := [] }
@@ -1397,15 +1428,54 @@ def slLevels : List (List (UpdK Int)) :=
   [[{ node := 0, tgt := some 0, mergeable := true }, { node := 1, tgt := some 0, mergeable := true },
     { node := 2, tgt := some 0, mergeable := true }]]
 
+/-- **same_level_parent_child_counterexample** (the OLD order, before fix 4d8d1bf): with the bottom-up sweep walking a
+    level forwards, kubepods is lowered BEFORE burstable on a shrink — all updaters mergeable, the batch is `ParentFirst`
+    but not `Levelled`. -/
 theorem same_level_parent_child_counterexample :
-    AllMergeable slLevels ∧ ¬ Levelled slParent (eraseKinds slLevels) ∧
-    (runBatchK limDom false (fun _ => true) slLevels slS).2 = [(0, 0), (1, 0)] ∧
-    ¬ (∀ k, Valid slParent limLe (applyWrites slS.files ((runBatchK limDom false (fun _ => true) slLevels slS).2.take k))) := by
-  refine ⟨by decide, fun h => ?_, by decide, fun h => ?_⟩
+    AllMergeable slLevels ∧ ¬ Levelled slParent (eraseKinds slLevels) ∧ ParentFirst slParent (eraseKinds slLevels) ∧
+    (runBatchKOld limDom false (fun _ => true) slLevels slS).2 = [(0, 0), (1, 0)] ∧
+    ¬ (∀ k, Valid slParent limLe (applyWrites slS.files ((runBatchKOld limDom false (fun _ => true) slLevels slS).2.take k))) := by
+  refine ⟨by decide, fun h => ?_, ?_, by decide, fun h => ?_⟩
   · exact h.2 _ (List.mem_cons_self ..) { node := 1, tgt := some 0 } (by simp [UpdK.upd])
       { node := 0, tgt := some 0 } (by simp [UpdK.upd]) rfl
+  · simp [ParentFirst, eraseKinds, slLevels, UpdK.upd, slParent]
   · have := h 1 1 0 rfl
     unfold limLe at this; revert this; decide
+
+/-- **same_level_parent_first_valid**: the same batch in the order the code uses now (every level backwards on the
+    way up): burstable is lowered first, kubepods last, every prefix valid - by the general theorem. -/
+theorem same_level_parent_first_valid :
+    (runBatchK limDom false (fun _ => true) slLevels slS).2 = [(1, 0), (0, 0)] ∧
+    ∀ k, Valid (liveParent slParent fun _ => true) limLe
+      (applyWrites slS.files ((runBatchK limDom false (fun _ => true) slLevels slS).2.take k)) := by
+  refine ⟨by decide, ?_⟩
+  apply leveled_batch_valid_parent_first limDom_eq limDom_ord false (fun _ => true) slLevels slS (fun _ => 0) slParent
+    (by decide)
+  · intro n v h; simp [slS] at h
+  · refine ⟨by decide, ?_, by decide⟩
+    intro n hn
+    have : ¬ n ≤ 1 := by
+      intro h; apply hn
+      have : n = 0 ∨ n = 1 := by omega
+      rcases this with h | h <;> subst h <;> decide
+    simp [slS, this]
+  · simp [ParentFirst, eraseKinds, slLevels, UpdK.upd, slParent]
+  · intro c p h
+    have h' := (liveParent_some h).1
+    unfold slParent at h'
+    split at h' <;> cases h' <;> (unfold limLe; decide)
+  · intro c p _; exact Int.le_refl _
+
+/-- **child_first_same_level_counterexample** (`ParentFirst` is necessary): burstable listed BEFORE kubepods in one
+    level, growth 0 → 1.25 GiB: the top-down sweep raises the child first. -/
+theorem child_first_same_level_counterexample :
+    ¬ (∀ k, Valid slParent limLe (applyWrites (fun _ => (0 : Int))
+        ((runBatchK limDom false (fun _ => true)
+          [[{ node := 1, tgt := some 1342177280, mergeable := true }, { node := 0, tgt := some 1342177280, mergeable := true }]]
+          { files := fun _ => 0, cache := fun _ => none, skip := [] }).2.take k))) := by
+  intro h
+  have := h 1 1 0 rfl
+  unfold limLe at this; revert this; decide
 
 /-- non-vacuity of leveled_batch_valid_needs_mergeable on the ratio shrink. -/
 example : AllMergeable (kdLevels true) := by decide
